@@ -155,6 +155,12 @@ def make_pool(tier):
     p["SCA2"] = darsia.ScalingModel(scaling=2.0)
     p["CLIP"] = darsia.ClipModel(**{"min value": 0.25, "max value": 0.5})
     p["THR"] = darsia.StaticThresholdModel(0.25, 0.75)
+    # data with missing values (NaN voxels), as an array, an image and a sub-image view of a larger image
+    nan_arr = _data((4, 4), rot=7).copy()
+    nan_arr[1, 2] = np.nan
+    nan_arr[3, 0] = np.nan
+    p["NANARR"] = nan_arr
+    p["NANIMG"] = darsia.Image(nan_arr.copy(), scalar=True, name="NANIMG", **g2())
     # label-wise threshold bounds handed over as float64 arrays, a two-label map and a bimodal signal
     p["THRLO"] = np.array([0.0, 0.1])
     p["THRHI"] = np.array([1.0, 0.9])
@@ -1286,6 +1292,35 @@ def _wgeo_arr(c, x):
     return c.use(c["WGEO"], "geometry").integrate(c.use(x, "data"))
 
 
+@op("Geometry.integrate/nan-array", dom="none", group="Geometry.integrate")
+def _geo_nan_arr(c, x):
+    return c.use(c["GEO"], "geometry").integrate(c.use(c["NANARR"], "data"))
+
+
+@op("Geometry.integrate/nan-image", dom="none", group="Geometry.integrate")
+def _geo_nan_img(c, x):
+    return c.use(c["GEO"], "geometry").integrate(c.use(c["NANIMG"], "data"))
+
+
+@op("WeightedGeometry.integrate/nan-image", dom="none", group="Geometry.integrate")
+def _wgeo_nan_img(c, x):
+    return c.use(c["WGEO"], "geometry").integrate(c.use(c["NANIMG"], "data"))
+
+
+@op("Geometry.integrate/nan-subregion", dom="none", group="Geometry.integrate")
+def _geo_nan_sub(c, x):
+    import darsia
+
+    sub = c.use(c["NANIMG"], "parent").subregion((slice(0, 2), slice(1, 4)))
+    g = darsia.Geometry(**sub.shape_metadata())
+    return g.integrate(sub)
+
+
+@op("Geometry.normalize/nan,nan", dom="none", group="Geometry.normalize")
+def _norm_nan(c, x):
+    return c.use(c["GEO"], "geometry").normalize(c.use(c["NANIMG"], "img"), c.use(c["NANIMG"], "img_ref"))
+
+
 @op("Geometry.normalize/x,P", group="Geometry.normalize")
 def _norm_xp(c, x):
     k = feat(x)
@@ -1355,6 +1390,16 @@ def _emd_mat(c, x):
     P = partner(c, x)
     _same_mass(x, P)
     return c.use(c["EMD"], "emd").distance_matrix(c.use([c.use(x, "images[0]"), c.use(P, "images[1]"), x], "images"))
+
+
+@op("EMD.distance_matrix/preprocess", group="EMD-preprocess")
+def _emd_mat_pre(c, x):
+    k = feat(x)
+    _emdable(k)
+    need(not k.series)
+    P = partner(c, x)
+    _same_mass(x, P)
+    return c.use(c["EMDP"], "emd").distance_matrix(c.use([c.use(x, "images[0]"), c.use(P, "images[1]"), x], "images"))
 
 
 def _wdable(k):
